@@ -7,7 +7,7 @@ import time
 
 from . import common, runs, tracecheck
 
-N_RUNS = {"quick": 44, "thorough": 420}
+N_RUNS = {"quick": 44, "thorough": 420}          # plus the limit sweep (24 / 96 runs)
 
 
 def cache_dir():
@@ -52,6 +52,36 @@ def cached(name, builder):
 def build(tier):
     rng = random.Random(common.seed() * 1000003 + (1 if tier == "quick" else 2))
     cfgs = [runs.gen_config(rng, i, tier) for i in range(N_RUNS[tier])]
+    # limit sweep: the SAME data and seeds stopped after 2, 3, ... rounds, so that runs end at the iteration limit
+    # in every round of a NON-MONOTONE cost sequence (what is returned must be the LAST round's, not the best).
+    # Candidates are run once with a generous limit; those whose per-round cost goes up somewhere are swept.
+    nbase = 3 if tier == "quick" else 10
+    cands = []
+    for b in range(6 * nbase):
+        base = runs.gen_config(rng, 900 + b, tier)
+        base.update(fe="single" if b % 3 else "joint", K=3 + b % 3, m=2 + b % 3, eps=0, scale=1.0,
+                    n_regimes=2 + b % 3, beta=[0.5, 2.0, 5.0, 1.0][b % 4], beta_form="float", lam=0.11,
+                    lam_form="float", N=2 + b % 2, W=1 + b % 3, biased=bool(b % 2), readonly=False, fortran=False,
+                    P=1, mp=False, limit=10)
+        base["lens"] = [110 + 9 * b] if base["fe"] == "single" else [60, 50 + 3 * b]
+        cands.append(base)
+    probe = runs.run_many(cands)
+    chosen = []
+    for base, t in zip(cands, probe):
+        if "driver_error" in t or not t["events"] or t["events"][-1]["ev"] != "return":
+            continue
+        costs = [float(e["out"]["cost"][2:]) for e in t["events"] if e["ev"] == "phase" and e["name"] == "relabel"
+                 and str(e["out"]["cost"]).startswith("f:")]
+        conv = any(e["ev"] == "converged" for e in t["events"])
+        # rounds k (0-based) at which a run limited to k+1 rounds would stop with a cost above an earlier round's
+        ups = [k for k in range(1, len(costs)) if costs[k] > min(costs[:k]) and not (conv and k == len(costs) - 1)]
+        if ups and len(chosen) < nbase:
+            chosen.append((base, ups[:3]))
+    for bi, (base, ups) in enumerate(chosen):
+        for k in ups:
+            cfgs.append(dict(base, id=f"sweep{bi}/limit{k + 1}", limit=k + 1))
+            if k >= 2:
+                cfgs.append(dict(base, id=f"sweep{bi}/limit{k}", limit=k))
     return runs.run_many(cfgs)
 
 
